@@ -186,7 +186,12 @@ func (c10) Exec(c Case) []string {
 			if q := client.Session.SMState.UnAckQueue; q != nil && len(q.Uslice) > 0 {
 				rh = q.Uslice[0].Id - 1
 			}
-			res := negProp{}.oneConn(client, cfg, xt, happy(false, false, true).with("res", op[1], "smid", hx("sm-next"), "via", "resume", "resh", strconv.Itoa(rh)), 0)
+			// failed1: as failed, the server then enables stream management with resume='1' (the other spelling of true)
+			kind, en := op[1], "enabled1"
+			if kind == "failed1" {
+				kind, en = "failed", "enabled1b"
+			}
+			res := negProp{}.oneConn(client, cfg, xt, happy(false, false, true).with("res", kind, "en", en, "smid", hx("sm-next"), "via", "resume", "resh", strconv.Itoa(rh)), 0)
 			time.Sleep(5 * time.Millisecond)
 			if op[1] == "otherid" && strings.HasPrefix(res, "out=failed") {
 				// a <resumed/> that confirms another id ends that connection attempt with an error (and drops the
@@ -289,7 +294,7 @@ func (c10) Generate(rng *rand.Rand, tier string, st *Stats) []Case {
 	// resumption the held stanzas and their numbers go on; after a REFUSED one (<failed/>, another id) the session that
 	// is enabled anew starts empty and numbers from 1 - an <a h='1'/> of the new session acknowledges its first stanza,
 	// nothing of the old session is transmitted on it
-	for _, kind := range []string{"same", "failed", "otherid"} {
+	for _, kind := range []string{"same", "failed", "otherid", "failed1"} {
 		mk("corpus-reconnect-"+kind, [][]string{{"sendraw", hx("<old1/>")}, {"sendraw", hx("<old2/>")}, {"sendraw", hx("<old3/>")}, {"ack", "1"},
 			{"newsession", kind}, {"sendraw", hx("<new1/>")}, {"ack", "1"}, {"sendraw", hx("<new2/>")}, {"ack", "2"}, {"ack", "4"}, {"ack", "5"}})
 		mk("corpus-reconnect-empty-"+kind, [][]string{{"sendraw", hx("<old1/>")}, {"ack", "1"}, {"newsession", kind}, c10op("message", "n1"), {"ack", "0"}, {"ack", "1"}, {"ack", "2"}})
